@@ -53,7 +53,11 @@ impl PackSizer {
 }
 
 pub struct IndexPack { pub id: PackId, pub blobs: Vec<IndexBlob>, pub size: Option<u32> }
-pub uninterp spec fn pack_size_spec(p: IndexPack) -> u32;
+// what IndexPack::pack_size returns (PROVED for the real function by unit indexpack_pack_size, which needs 'no u32 overflow';
+// the stub below serves the callers and ASSUMES that precondition)
+pub open spec fn pack_size_spec(p: IndexPack) -> u32 {
+    match p.size { Some(s) => s, None => (36 + sum_len(p.blobs@, p.blobs@.len() as int) + hdr_sum(p.blobs@, p.blobs@.len() as int)) as u32 }
+}
 impl IndexPack {
     #[verifier::external_body]
     pub fn pack_size(&self) -> (r: u32) ensures r == pack_size_spec(*self), { unimplemented!() }
